@@ -117,12 +117,39 @@ func GenWorld(seed int64, prop string, idx int, steps int) WorldCfg {
 	cfg.Durable = r.Intn(8) != 0
 	cfg.Legacy = r.Intn(6) == 0
 	cfg.EagerRetire = r.Intn(8) == 0
+	// node ids: small integers, or (as etcd derives member ids from hashes) ids
+	// spread over the whole uint64 range
+	bigIDs := r.Intn(5) == 0
+	for i := 1; i <= cfg.Universe; i++ {
+		id := uint64(i)
+		if bigIDs {
+			for {
+				id = r.Uint64()
+				if r.Intn(3) == 0 {
+					id |= 1 << 63
+				}
+				dup := id == 0 || id >= math.MaxUint64-2
+				for _, o := range cfg.IDs {
+					if o == id {
+						dup = true
+					}
+				}
+				if !dup {
+					break
+				}
+			}
+		}
+		cfg.IDs = append(cfg.IDs, id)
+	}
+	if bigIDs {
+		sort.Slice(cfg.IDs, func(i, j int) bool { return cfg.IDs[i] < cfg.IDs[j] })
+	}
 	for i := 1; i <= nn; i++ {
-		cfg.Voters = append(cfg.Voters, uint64(i))
+		cfg.Voters = append(cfg.Voters, cfg.IDs[i-1])
 	}
 	if nn >= 2 && r.Intn(4) == 0 && !cfg.Legacy {
 		// last initial member is a learner
-		cfg.Learners = []uint64{uint64(nn)}
+		cfg.Learners = []uint64{cfg.IDs[nn-1]}
 		cfg.Voters = cfg.Voters[:nn-1]
 	}
 	allAsync := r.Intn(3)
@@ -132,7 +159,7 @@ func GenWorld(seed int64, prop string, idx int, steps int) WorldCfg {
 	mixed := r.Intn(3) == 0 // mixed PreVote/CheckQuorum flags
 	pv, cq := r.Intn(2) == 0, r.Intn(2) == 0
 	cfg.Nodes = map[uint64]NodeCfg{}
-	for id := uint64(1); id <= uint64(cfg.Universe); id++ {
+	for _, id := range cfg.IDs {
 		nc := NodeCfg{
 			Async:             allAsync == 0 || (allAsync == 1 && r.Intn(2) == 0),
 			PreVote:           pv,
@@ -246,6 +273,15 @@ func (w *World) Gen(r *rand.Rand) Action {
 				for j := 0; j < 2+r.Intn(2); j++ {
 					l = append(l, w.payload(r))
 				}
+				if pct(r, p.CCPct/2) {
+					// a batch that mixes a configuration change with normal entries
+					cc := w.genCC(r, n)
+					if !cc.F {
+						pos := r.Intn(len(l) + 1)
+						l = append(l[:pos:pos], append([][]byte{cc.D}, l[pos:]...)...)
+						return Action{K: "propmix", N: n.id, L: l, A: uint64(pos)}
+					}
+				}
 				return Action{K: "propb", N: n.id, L: l}
 			}
 			return Action{K: "prop", N: n.id, D: w.payload(r)}
@@ -346,7 +382,13 @@ func (w *World) payload(r *rand.Rand) []byte {
 	return d
 }
 
-func (w *World) anyID(r *rand.Rand) uint64 { return uint64(1 + r.Intn(w.Cfg.Universe+1)) }
+// anyID: an id of the universe, or (rarely) one that no node has
+func (w *World) anyID(r *rand.Rand) uint64 {
+	if k := r.Intn(len(w.Cfg.IDs) + 1); k < len(w.Cfg.IDs) {
+		return w.Cfg.IDs[k]
+	}
+	return w.Cfg.IDs[len(w.Cfg.IDs)-1] + 1
+}
 
 func (w *World) genMisc(r *rand.Rand, n *node) (Action, bool) {
 	p := &w.Cfg.Prof
@@ -406,7 +448,7 @@ func (w *World) genCC(r *rand.Rand, n *node) Action {
 		if r.Intn(25) == 0 {
 			return 0
 		}
-		return uint64(1 + r.Intn(U))
+		return w.Cfg.IDs[r.Intn(U)]
 	}
 	types := []pb.ConfChangeType{pb.ConfChangeAddNode, pb.ConfChangeRemoveNode, pb.ConfChangeAddLearnerNode, pb.ConfChangeAddNode, pb.ConfChangeRemoveNode, pb.ConfChangeUpdateNode}
 	if r.Intn(5) == 0 {
